@@ -138,6 +138,19 @@ func (fr *Frame) callWrites(cc *ssa.CallCommon, ws map[string]bool) {
 	}
 	if ex, ok := externs[externName(cc)]; ok && ex.writes != nil {
 		ex.writes(fr, cc, ws)
+		return
+	}
+	// external function with an ASSUMED contract in the contract file: its modifies clause is its write set
+	if fc := c.eng.cf.Funcs[externName(cc)]; fc != nil {
+		ws["nextRef"] = true
+		c.heapVar("nextRef", SInt)
+		for _, m := range fc.Modifies {
+			for _, h := range c.modifiesHeaps(m.Pat) {
+				if !strings.HasPrefix(h, "CELL:") {
+					ws[h] = true
+				}
+			}
+		}
 	}
 }
 
@@ -351,6 +364,14 @@ func (fr *Frame) applyContract(callee *ssa.Function, fc *FuncContract, bindings 
 			vars[p.Name()] = TV{args[i], p.Type()}
 		}
 	}
+	if callee.Pkg != c.eng.pkg && cc != nil {
+		// a function without a body here (another package): arguments are arg0, arg1, ... (receiver first)
+		for i := range args {
+			if i < len(cc.Args) {
+				vars[fmt.Sprintf("arg%d", i)] = TV{args[i], cc.Args[i].Type()}
+			}
+		}
+	}
 	pre := st.clone()
 	// free variables of closures resolve to the caller's cells
 	localWitness := map[string]TV{}
@@ -411,11 +432,13 @@ func (fr *Frame) applyContract(callee *ssa.Function, fc *FuncContract, bindings 
 	}
 	// havoc the callee's write set (for an ASSUMED contract the modifies clause is the whole story:
 	// its body is not verified, so its syntactic write set is not consulted)
-	ws := c.writeSet(callee)
+	var ws map[string]bool
 	if fc.Trusted != "" {
 		// allocation is not a modification: an unverified callee may always allocate (its results may be fresh)
 		c.heapVar("nextRef", SInt)
 		ws = map[string]bool{"nextRef": true}
+	} else {
+		ws = c.writeSet(callee)
 	}
 	declared := map[string]bool{}
 	atRefs := map[string][]Term{}
@@ -507,7 +530,10 @@ func (fr *Frame) applyContract(callee *ssa.Function, fc *FuncContract, bindings 
 			vars[n] = TV{out[i], res.At(i).Type()}
 		}
 	}
-	for _, cl := range fc.clauses("ensures") {
+	for _, cl := range append(fc.clauses("ensures"), fc.clauses("assume")...) {
+		if cl.Kind == "assume" {
+			c.trusted["ASSUMED clause ["+cl.Label+"] of "+key] = cl.Text
+		}
 		x := mkCtx(st, pre)
 		if g, ok := x.evalBool(cl.Expr); ok {
 			// a clause with a recorded (unrepaired) finding is only assumed outside the recorded shape
